@@ -205,7 +205,9 @@ def run_log(case):
                             pos += sz
                             body += chunk
                             te = spec['log_toc'][vid]
-                            vals['%s.%s' % (te['group'], te['name'])] = _ref_decode(tb & 0xf, chunk)
+                            # (a block can hold a variable twice when start() was called again before the first acknowledgement:
+                            # the library reads the first occurrence)
+                            vals.setdefault('%s.%s' % (te['group'], te['name']), _ref_decode(tb & 0xf, chunk))
                         ts = step.get('ts', ts_counter[0]) & 0xFFFFFF
                         ts_counter[0] += 1 + step['seed'] * 1000
                         link.deliver((5, 2, bytes([bid, ts & 0xff, (ts >> 8) & 0xff, (ts >> 16) & 0xff]) + body))      # link latency, in order with the acknowledgements
